@@ -113,7 +113,7 @@ pub fn module_text(a: &AMod, with_offsets: bool, with_names: bool) -> String {
         s.push_str(" |");
     }
     if with_names {
-        if let Some(Ok(n)) = a.names() {
+        if let Some(n) = a.names_lenient() {
             s.push_str(" NM");
             if let Some(m) = &n.module {
                 s.push_str(&format!(" M{}", hex(m.as_bytes())));
